@@ -189,8 +189,15 @@ def run(case):
     elif kind == "hist":
         bins = case["bins"]
         kw = {k_: (tuple(v_) if k_ == "range" else v_) for k_, v_ in (case.get("kw") or {}).items()}
-        o = attempt(lambda: np.histogram(dv, bins, **kw))
-        a = attempt(lambda: np.histogram(r, bins, **kw))
+        if case.get("positional") and "range" in kw:
+            # numpy's signature is histogram(a, bins, range, density, weights): the same arguments passed by position
+            pos = (kw["range"],) + ((kw["density"],) if "density" in kw else ())
+            tags.append("hist:positional")
+            o = attempt(lambda: np.histogram(dv, bins, *pos))
+            a = attempt(lambda: np.histogram(r, bins, *pos))
+        else:
+            o = attempt(lambda: np.histogram(dv, bins, **kw))
+            a = attempt(lambda: np.histogram(r, bins, **kw))
         desc = "np.histogram(encoded %s %s, bins=%s, %s)" % (dt, short(v, 120), bins, kw)
         if not o.ok:
             return undefined("numpy raises: %r" % o, tags)
@@ -351,6 +358,7 @@ def gen_case(rng, tier, kind=None, dtype=None, align=None, uf=None):
         elif u < 0.5 and isinstance(c["bins"], int):
             lo_, hi_ = min(c["vals"]), max(c["vals"])
             c["kw"] = {"range": [float(lo_), float(lo_ + max(1, (hi_ - lo_) // 2))], "density": rng.random() < 0.5}
+            c["positional"] = rng.random() < 0.5
     return c
 
 
@@ -383,6 +391,8 @@ def directed():
             yield {"kind": "inplace", "dtype": "int64", "vals": a_, "dtype2": "int64", "vals2": b_, "uf": uf_, "vclass": "small"}
     for kw_ in ({"density": True}, {"range": [1.0, 4.0]}, {"range": [1.0, 4.0], "density": True}, {"range": [3.0, 20.0], "density": True}):
         yield {"kind": "hist", "dtype": "int64", "vals": [1, 1, 2, 5, 5, 5, 9, 9, 3], "bins": 4, "kw": kw_, "vclass": "small"}
+        if "range" in kw_:
+            yield {"kind": "hist", "dtype": "int64", "vals": [1, 1, 2, 5, 5, 5, 9, 9, 3], "bins": 4, "kw": kw_, "vclass": "small", "positional": True}
         yield {"kind": "hist", "dtype": "float64", "vals": [0.5, 0.5, 2.25, 7.0, 7.0, 1.0], "bins": 3, "kw": kw_, "vclass": "small"}
     # constant operand on either side of a non-commutative ufunc
     for uf in sorted(NONCOMM):
